@@ -28,8 +28,13 @@ class DmWorld:
         self.w = w = rt.World(self.ch, wake_grid=cfg.get('wake_grid'))
         rt.activate(w)
         self.bus = bus = Bus(w, base_lat=cfg.get('base_lat', 1e-3), lat_grid=cfg.get('lat_grid'))
+        bus.send_cost = cfg.get('send_cost', 0.0)      # a blocking driver (every send call of a stack takes this long)
+        bus.send_visible = cfg.get('send_visible', 1.0)
         self.C = Stack(bus, 'C')
         self.S = Stack(bus, 'S')
+        if cfg.get('rx_threads'):
+            self.C.start_rx_thread()
+            self.S.start_rx_thread()
         self.cli_addr = cfg.get('cli', CLI)
         self.cca = self.C.add_ca(self.cli_addr, name_value=0x501)
         self.sca = self.S.add_ca(SRV, name_value=0x502)
@@ -184,6 +189,9 @@ class DmWorld:
         for lt in self.w.threads:
             if lt.exc is not None:
                 out.append("%s died: %s" % (lt.name, lt.exc_type))
+        for st in (self.C, self.S):
+            if st.rx_raised:
+                out.append("receive thread of %s: handler raised %s" % (st.name, st.rx_raised[0]))
         return out
 
     def trace(self):
